@@ -651,6 +651,36 @@ func ruleLocalIdx(c *Ctx) {
 			all = append(all, fnd[k])
 		}
 		c.Ok(fn+":capacity", p.Pos(fd), fmt.Sprintf("working-storage accesses of %d paths stay inside their arrays and capacities", len(paths)))
+		// closures of the function (a local `push := func(v uint8) {…}`) are analysed as units of their own: captured
+		// variables are free, so a re-slice beyond the length inside one is not covered by any guard of the outer body
+		k := 0
+		ast.Inspect(fd.Body, func(nd ast.Node) bool {
+			lit, ok := nd.(*ast.FuncLit)
+			if !ok {
+				return true
+			}
+			k++
+			syn := &ast.FuncDecl{Name: ast.NewIdent(fd.Name.Name + "$" + itoa(k)), Type: lit.Type, Body: lit.Body}
+			lfg := p.NewFG(p.CFGOf(lit.Body))
+			lpaths, ok := lfg.EnumPaths(0, 0, 2, 20000, nil)
+			if !ok {
+				c.Undecided(fn+":closure#"+itoa(k)+":paths", p.Pos(lit), "too many paths")
+				return true
+			}
+			lsps, laccs := symPathsWithAccess(p, syn, lpaths, nil)
+			_, lf := checkBoundsOnPaths(c, p, fn+"$"+itoa(k), lsps, laccs, func(b string) bool { return !relevantBase(b) }, map[string]bool{})
+			var lk []string
+			for key := range lf {
+				if strings.HasSuffix(key, ":high <= cap") || (strings.Contains(key, ":index < ") && !strings.HasSuffix(key, ":index < len")) {
+					lk = append(lk, key)
+				}
+			}
+			sort.Strings(lk)
+			for _, key := range lk {
+				all = append(all, lf[key])
+			}
+			return true
+		})
 	}
 	for _, f := range all {
 		c.Bad(f.site, f.pos, f.msg, "a deeply nested or otherwise extreme accepted document")
